@@ -162,7 +162,7 @@ func (d *Dumper) ValueLit(in any, optFns ...ValueLitOptFn) string {
 			t := d.ReflectTypeLit(rv.Elem().Type())
 			return fmt.Sprintf("func(v %s) *%s { return &v }(%s)", t, t, d.ValueLit(rv.Elem(), optFns...))
 		}
-		return fmt.Sprintf("&(%s)", d.ValueLit(rv.Elem(), optFns...))
+		return fmt.Sprintf("&(%s)", d.ValueLit(rv.Elem(), append(optFns, SubValue(false))...))
 	case reflect.Struct:
 		buf := bytes.NewBufferString(d.ReflectTypeLit(tpe))
 		buf.WriteString(`{`)
@@ -210,7 +210,7 @@ func (d *Dumper) ValueLit(in any, optFns ...ValueLitOptFn) string {
 		keyValues := map[string]reflect.Value{}
 
 		for _, key := range rv.MapKeys() {
-			k := d.ValueLit(key, optFns...)
+			k := d.ValueLit(key, append(optFns, SubValue(false))...)
 			keyLits = append(keyLits, k)
 			keyValues[k] = rv.MapIndex(key)
 		}
@@ -224,7 +224,7 @@ func (d *Dumper) ValueLit(in any, optFns ...ValueLitOptFn) string {
 
 			buf.WriteString(k)
 			buf.WriteString(":")
-			buf.WriteString(d.ValueLit(keyValues[k], optFns...))
+			buf.WriteString(d.ValueLit(keyValues[k], append(optFns, SubValue(false))...))
 			buf.WriteString(",")
 			buf.WriteString("\n")
 		}
